@@ -667,17 +667,17 @@ func assignFromCall(n *node) {
 		// Ignore the type in the assignment if it is part of a variable declaration.
 		l--
 	}
-	dvalue := make([]func(*frame) reflect.Value, l)
+	dvalue := make([]func(*frame, reflect.Value), l)
 	for i := range dvalue {
 		if n.child[i].ident == "_" {
 			continue
 		}
-		dvalue[i] = genValue(n.child[i])
+		dvalue[i] = genDestSetter(n.child[i])
 	}
 	next := getExec(n.tnext)
 	n.exec = func(f *frame) bltn {
-		for i, v := range dvalue {
-			if v == nil {
+		for i, set := range dvalue {
+			if set == nil {
 				continue
 			}
 			s := f.data[ncall.findex+i]
@@ -690,10 +690,21 @@ func assignFromCall(n *node) {
 				data[c.findex].Set(s)
 				continue
 			}
-			v(f).Set(s)
+			set(f, s)
 		}
 		return next
 	}
+}
+
+// genDestSetter returns a function which assigns a value to the destination n of
+// an assignment. A map entry is set in its map, any other destination in place.
+func genDestSetter(n *node) func(*frame, reflect.Value) {
+	if isMapEntry(n) {
+		m, k := genValue(n.child[0]), genValue(n.child[1])
+		return func(f *frame, v reflect.Value) { m(f).SetMapIndex(k(f), v) }
+	}
+	dest := genValue(n)
+	return func(f *frame, v reflect.Value) { dest(f).Set(v) }
 }
 
 func assign(n *node) {
@@ -1721,10 +1732,14 @@ func callBin(n *node) {
 			// The optimization of aAssign is handled in assign(), and should not
 			// be handled here.
 			rvalues := make([]func(*frame) reflect.Value, funcType.NumOut())
+			setters := make([]func(*frame, reflect.Value), funcType.NumOut())
 			for i := range rvalues {
 				c := n.anc.child[i]
 				if c.ident == "_" {
 					continue
+				}
+				if isMapEntry(c) {
+					setters[i] = genDestSetter(c)
 				}
 				if isInterfaceSrc(c.typ) {
 					rvalues[i] = genValueInterfaceValue(c)
@@ -1750,6 +1765,11 @@ func callBin(n *node) {
 						data := getFrame(f, c.level).data
 						data[c.findex] = reflect.New(data[c.findex].Type()).Elem()
 						data[c.findex].Set(out[i])
+						continue
+					}
+					if isMapEntry(c) {
+						// A map entry is set in its map.
+						setters[i](f, out[i])
 						continue
 					}
 					v(f).Set(out[i])
